@@ -653,7 +653,7 @@ func C01(c *ev.Ctx) {
 func c01Boundary(c *ev.Ctx) (int, int) {
 	var its []goosegen.Item
 	for _, it := range goosegen.Catalogue {
-		if (goosegen.RejectedAtPin[it.Key] || strings.HasPrefix(it.Key, "partial.")) && !strings.HasPrefix(it.Key, "lookalike.") {
+		if (goosegen.RejectedAtPin[it.Key] || strings.HasPrefix(it.Key, "partial.") || strings.HasPrefix(it.Key, "subset.")) && !strings.HasPrefix(it.Key, "lookalike.") {
 			its = append(its, it)
 		}
 	}
@@ -789,7 +789,11 @@ func c01Boundary(c *ev.Ctx) (int, int) {
 				src = p.Source
 			}
 		}
-		c.Report("c01.boundary."+key, fmt.Sprintf("construct %s is now accepted (the pinned translator rejected it), but its emitted definition does not behave like Go: %s: %s\n  Go:    %s\n  model: %s", key, d.Kind, d.Detail, d.GoRes, d.ModelRes),
+		how := "is now accepted (the pinned translator rejected it), but"
+		if !goosegen.RejectedAtPin[key] {
+			how = "is accepted, but"
+		}
+		c.Report("c01.boundary."+key, fmt.Sprintf("construct %s %s its emitted definition does not behave like Go: %s: %s\n  Go:    %s\n  model: %s", key, how, d.Kind, d.Detail, d.GoRes, d.ModelRes),
 			map[string]string{"gen.go": src, "emitted.v": gout.files[d.Pkg], "entry.txt": d.Entry})
 	}
 	return len(its), accepted
